@@ -139,4 +139,7 @@ package iscp
 //@   loop 1 invariant fresh(dpgs) && len(dpgs) == rangeindex + 1 && rangeindex < len(dps.StreamChunk.DataPointGroups)
 //@   ensures imp(result1 == nil, forall(i, int, imp(0 <= i && i < len(dps.StreamChunk.DataPointGroups), groupOK(d, result0.DataPointGroups[i], dps.StreamChunk.DataPointGroups[i]))))
 //@   loop 1 invariant forall(i, int, imp(0 <= i && i <= rangeindex, knownID(d, dps.StreamChunk.DataPointGroups[i].DataIDOrAlias)))
-//@   loop 1 invariant forall(i, int, imp(0 <= i && i <= rangeindex, groupOK(d, dpgs[i], dps.StreamChunk.DataPointGroups[i])))
+//@   loop 1 invariant forall(i, int, imp(0 <= i && i <= rangeindex, dpgs[i] != nil))
+//@   loop 1 invariant forall(i, int, imp(0 <= i && i <= rangeindex, dpgs[i].DataPoints == dps.StreamChunk.DataPointGroups[i].DataPoints))
+//@   loop 1 invariant forall(i, int, imp(0 <= i && i <= rangeindex, dpgs[i].DataID != nil))
+//@   loop 1 invariant forall(i, int, imp(0 <= i && i <= rangeindex, *dpgs[i].DataID == resolvedID(d, dps.StreamChunk.DataPointGroups[i].DataIDOrAlias)))
